@@ -191,7 +191,20 @@ pub struct Reply { pub id: u64, pub payload: Binary, pub gas_used: u64, pub resu
 pub struct Response<T> { pub messages: Vec<SubMsg<T>>, pub attributes: Vec<Attribute>, pub events: Vec<Event>, pub data: Option<Binary> }
 
 // ---- queries
-pub struct BankQuery { pub opaque: u64 }
+pub struct PageRequest { pub opaque: u64 }
+pub enum BankQuery {
+    Supply { denom: String },
+    Balance { address: String, denom: String },
+    AllBalances { address: String },
+    DenomMetadata { denom: String },
+    AllDenomMetadata { pagination: Option<PageRequest> },
+}
+pub struct AllBalanceResponse { pub amount: Vec<Coin> }
+impl AllBalanceResponse { pub fn new(amount: Vec<Coin>) -> (r: Self) ensures r.amount == amount { AllBalanceResponse { amount } } }
+pub struct BalanceResponse { pub amount: Coin }
+impl BalanceResponse { pub fn new(amount: Coin) -> (r: Self) ensures r.amount == amount { BalanceResponse { amount } } }
+pub struct SupplyResponse { pub amount: Coin }
+impl SupplyResponse { pub fn new(amount: Coin) -> (r: Self) ensures r.amount == amount { SupplyResponse { amount } } }
 pub enum StakingQuery {
     BondedDenom {},
     AllDelegations { delegator: String },
@@ -254,12 +267,29 @@ impl Clone for AppResponse { #[verifier::external_body] fn clone(&self) -> (r: S
 impl Uint128 {
     pub fn is_zero(&self) -> (r: bool) ensures r == (self.u == 0) { self.u == 0 }
 }
+// cosmwasm_std::coin(amount, denom: impl Into<String>)
+pub trait IntoStr { spec fn str_view(&self) -> Seq<char>; }
+impl IntoStr for String { open spec fn str_view(&self) -> Seq<char> { self@ } }
+impl<'a> IntoStr for &'a String { open spec fn str_view(&self) -> Seq<char> { self@ } }
+impl<'a> IntoStr for &'a str { open spec fn str_view(&self) -> Seq<char> { self@ } }
+#[verifier::external_body]
+pub fn coin<S: IntoStr>(amount: u128, denom: S) -> (r: Coin)
+    ensures r.amount.u == amount, r.denom@ == denom.str_view()
+{ unimplemented!() }
+impl vstd::std_specs::convert::FromSpecImpl<Uint128> for u128 {
+    open spec fn obeys_from_spec() -> bool { true }
+    open spec fn from_spec(x: Uint128) -> u128 { x.u }
+}
+impl From<Uint128> for u128 { fn from(x: Uint128) -> (r: u128) { x.u } }
 pub struct Decimal { pub atomics: u128 }
 impl Clone for Decimal { fn clone(&self) -> (r: Self) ensures r == *self { Decimal { atomics: self.atomics } } }
 impl Copy for Decimal {}
 
 // ---- serde / marker traits: (de)serialisation is an uninterpreted function of the value
 pub trait Serialize {}
+impl Serialize for AllBalanceResponse {}
+impl Serialize for BalanceResponse {}
+impl Serialize for SupplyResponse {}
 pub trait DeserializeOwned {}
 pub trait CustomMsg {}
 pub trait CustomQuery {}
